@@ -68,14 +68,25 @@ class Evaluator(CallMixin, StmtMixin):
             return SClass(v)
         if k == "const":
             m2, e2 = v
+            if m2.name == "htmltools" and name == "html_dependency_render_mode":
+                return self.global_cell("htmltools.html_dependency_render_mode", ("STR",))
+            sites = self.prog.global_mutation_sites(m2.name, name) if m2.name.startswith("htmltools") else []
+            if sites:
+                # module-level *state*, not a constant: its content depends on what ran before
+                try:
+                    init = self.prog.fold(e2, m2)
+                    kinds = {kinds_of_pyvalue(init)}
+                except NotConst:
+                    kinds = ALL_KINDS
+                o = self.global_cell(f"{m2.name}.{name}", kinds)
+                o.meta["mutable_global"] = sites
+                self.run.effect("global_read", f"{m2.name}.{name}", None, sites, node)
+                return o
             try:
                 return self.prog.fold(e2, m2)
             except NotConst:
                 pass
-            # typing aliases etc. are irrelevant for execution
-            if m2.name == "htmltools" and name == "html_dependency_render_mode":
-                return self.global_cell("htmltools.html_dependency_render_mode", ("STR",))
-            return SUnknown(f"module-level value {m2.name}.{name}")
+            return self.eval_module_expr(m2, e2, name)
         if k == "var":
             m2, nm = v
             return self.global_cell(f"{m2.name}.{nm}", ALL_KINDS)
@@ -93,6 +104,26 @@ class Evaluator(CallMixin, StmtMixin):
         if name == "Ellipsis":
             return Ellipsis
         raise self.unmodelled(f"unresolved name `{name}`", node)
+
+    def eval_module_expr(self, mod: Module, e: ast.expr, name: str) -> Any:
+        """Value of a module-level initialiser that is not a literal (re.compile(...), TypeVar(...), ...)."""
+        cache = self.run.__dict__.setdefault("module_values", {})
+        key = (mod.name, name)
+        if key in cache:
+            return cache[key]
+        mark = len(self.run.effects)
+        f = SFunc(mod, ast.Module(body=[], type_ignores=[]), None, None, None, f"<module {mod.name}>")
+        self.frames.append(Frame(f, {}))
+        try:
+            try:
+                v = self.eval(e)
+            except Unmodelled:
+                v = SUnknown(f"module-level value {mod.name}.{name}")
+        finally:
+            self.frames.pop()
+            del self.run.effects[mark:]
+        cache[key] = v
+        return v
 
     def global_cell(self, qual: str, kinds: Any) -> Any:
         st = self.run.globals_state
@@ -807,6 +838,12 @@ class Evaluator(CallMixin, StmtMixin):
     def equal(self, l: Any, r: Any, node: ast.AST) -> Any:
         if not isinstance(l, Sym) and not isinstance(r, Sym):
             return l == r
+        for a, b in ((l, r), (r, l)):
+            lc = getattr(a, "len_of", None)
+            if lc is not None and isinstance(b, int) and not isinstance(b, bool):
+                return self.cmp_count(lc[0], lc[1], "==", b)
+        if isinstance(l, SInt) and isinstance(r, SInt) and l.base == r.base:
+            return l.off == r.off
         for a, b in ((l, r), (r, l)):
             if isinstance(a, SStr) and isinstance(b, str):
                 if a.is_const():
